@@ -157,9 +157,18 @@ fn gen(rng: &mut Rng, idx: u64, tier: Tier) -> Case {
     delayed.sort_by_key(|e| e.0);
     for (dtm, b, tg) in delayed { lines.push(((dtm - prev).max(0), b, tg)); prev = prev.max(dtm); }
     let ch = *rng.pick(&[Chunking::Line, Chunking::Line, Chunking::Line, Chunking::Pieces]);
-    let ops = gen::ops_of(rng, lines, ch);
-    let mut script = Script::file(args, ops);
-    script.tcp = rng.chance(0.2);
+    let mut script = Script::file(args, vec![]);
+    script.tcp = rng.chance(0.25);
+    if script.tcp && rng.chance(0.6) && lines.len() >= 2 {
+        // the feed reconnects in the middle of the traffic (also between the two frames of a pair)
+        let cut = rng.range(1, lines.len() as i64 - 1) as usize;
+        let rest = lines.split_off(cut);
+        let mut first = gen::ops_of(rng, lines, ch);
+        first.push(if rng.chance(0.5) { crate::script::Op::Eof { dt_us: 0 } } else { crate::script::Op::Err { dt_us: 0, kind: "ConnectionReset".into() } });
+        script.conns = vec![crate::script::Conn::Accept { ops: first }, crate::script::Conn::Accept { ops: gen::ops_of(rng, rest, ch) }];
+    } else {
+        script.conns = vec![crate::script::Conn::Accept { ops: gen::ops_of(rng, lines, ch) }];
+    }
     let meta = json!({"truth": truth.iter().map(|(k, v)| (k.clone(), json!([v.0, v.1]))).collect::<serde_json::Map<_, _>>()});
     Case { property: "C08".into(), mode: String::new(), script, args_b: None, log_level_b: None, meta }
 }
